@@ -100,6 +100,12 @@ theorem pairs_reindexTree (ix : Index) (m : Option Dir) (t t' : Tree) (h : reind
   | times idx => exact pairs_mapM _ _ _ h
   | len n => exact pairs_mapM _ _ _ h
 
+/-- the column pass of `df_sync` on one member (`columns=None`: nothing) -/
+def colPass (ch : Option How) (hdrs : List (List String)) (l : Leaf) : Res Leaf :=
+  match ch with
+  | Option.none => .ok l
+  | some c => recolumnLeaf (joinCols c hdrs) l
+
 /-! ### tuple-free containers: the joint index sees every member -/
 
 mutual
